@@ -34,6 +34,21 @@ const G9: &str = concat!(
     " \"INT\" \"INT\" \"INT\" \"INT\" \"INT\" \"INT\" \"INT\" \"INT\" \"INT\" \"INT\" \"INT\" \"INT\" \"INT\" \"INT\" \"INT\" \"INT\" \"INT\" \"INT\" \"INT\" \"INT\" \"INT\" \"INT\" \"INT\" \"INT\" \"INT\" \"INT\" \"INT\" \"INT\" \"INT\" \"INT\" \"INT\" \"INT\" \"INT\" \"INT\" \"INT\" \"INT\" \"INT\" \"INT\" \"INT\" \"INT\" \"INT\" \"INT\" \"INT\" \"INT\" \"INT\" \"INT\" \"INT\" \"INT\" \"INT\" \"INT\"",
     " \")\" { 0 } ;\n"
 );
+// two productions of ~200 symbols: every production fits a `u8`, the state graph does not (the
+// panic comes from the table builder, after the old output has been deleted)
+const G10: &str = concat!(
+    "%start Expr\n%%\nExpr -> u64: Expr \"+\" Term { $1 + $3 } | Term { $1 } ;\nTerm -> u64: Term \"*\" Factor { $1 * $3 } | Factor { $1 } ;\nFactor -> u64: \"(\" Expr \")\" { $2 } | \"INT\" { 0 } | \"(\" \"*\"",
+    " \"INT\" \"INT\" \"INT\" \"INT\" \"INT\" \"INT\" \"INT\" \"INT\" \"INT\" \"INT\" \"INT\" \"INT\" \"INT\" \"INT\" \"INT\" \"INT\" \"INT\" \"INT\" \"INT\" \"INT\" \"INT\" \"INT\" \"INT\" \"INT\" \"INT\" \"INT\" \"INT\" \"INT\" \"INT\" \"INT\" \"INT\" \"INT\" \"INT\" \"INT\" \"INT\" \"INT\" \"INT\" \"INT\" \"INT\" \"INT\" \"INT\" \"INT\" \"INT\" \"INT\" \"INT\" \"INT\" \"INT\" \"INT\" \"INT\" \"INT\"",
+    " \"INT\" \"INT\" \"INT\" \"INT\" \"INT\" \"INT\" \"INT\" \"INT\" \"INT\" \"INT\" \"INT\" \"INT\" \"INT\" \"INT\" \"INT\" \"INT\" \"INT\" \"INT\" \"INT\" \"INT\" \"INT\" \"INT\" \"INT\" \"INT\" \"INT\" \"INT\" \"INT\" \"INT\" \"INT\" \"INT\" \"INT\" \"INT\" \"INT\" \"INT\" \"INT\" \"INT\" \"INT\" \"INT\" \"INT\" \"INT\" \"INT\" \"INT\" \"INT\" \"INT\" \"INT\" \"INT\" \"INT\" \"INT\" \"INT\" \"INT\"",
+    " \"INT\" \"INT\" \"INT\" \"INT\" \"INT\" \"INT\" \"INT\" \"INT\" \"INT\" \"INT\" \"INT\" \"INT\" \"INT\" \"INT\" \"INT\" \"INT\" \"INT\" \"INT\" \"INT\" \"INT\" \"INT\" \"INT\" \"INT\" \"INT\" \"INT\" \"INT\" \"INT\" \"INT\" \"INT\" \"INT\" \"INT\" \"INT\" \"INT\" \"INT\" \"INT\" \"INT\" \"INT\" \"INT\" \"INT\" \"INT\" \"INT\" \"INT\" \"INT\" \"INT\" \"INT\" \"INT\" \"INT\" \"INT\" \"INT\" \"INT\"",
+    " \"INT\" \"INT\" \"INT\" \"INT\" \"INT\" \"INT\" \"INT\" \"INT\" \"INT\" \"INT\" \"INT\" \"INT\" \"INT\" \"INT\" \"INT\" \"INT\" \"INT\" \"INT\" \"INT\" \"INT\" \"INT\" \"INT\" \"INT\" \"INT\" \"INT\" \"INT\" \"INT\" \"INT\" \"INT\" \"INT\" \"INT\" \"INT\" \"INT\" \"INT\" \"INT\" \"INT\" \"INT\" \"INT\" \"INT\" \"INT\" \"INT\" \"INT\" \"INT\" \"INT\" \"INT\" \"INT\" \"INT\" \"INT\" \"INT\" \"INT\"",
+    " \")\" { 0 } | \"(\" \"+\"",
+    " \"INT\" \"INT\" \"INT\" \"INT\" \"INT\" \"INT\" \"INT\" \"INT\" \"INT\" \"INT\" \"INT\" \"INT\" \"INT\" \"INT\" \"INT\" \"INT\" \"INT\" \"INT\" \"INT\" \"INT\" \"INT\" \"INT\" \"INT\" \"INT\" \"INT\" \"INT\" \"INT\" \"INT\" \"INT\" \"INT\" \"INT\" \"INT\" \"INT\" \"INT\" \"INT\" \"INT\" \"INT\" \"INT\" \"INT\" \"INT\" \"INT\" \"INT\" \"INT\" \"INT\" \"INT\" \"INT\" \"INT\" \"INT\" \"INT\" \"INT\"",
+    " \"INT\" \"INT\" \"INT\" \"INT\" \"INT\" \"INT\" \"INT\" \"INT\" \"INT\" \"INT\" \"INT\" \"INT\" \"INT\" \"INT\" \"INT\" \"INT\" \"INT\" \"INT\" \"INT\" \"INT\" \"INT\" \"INT\" \"INT\" \"INT\" \"INT\" \"INT\" \"INT\" \"INT\" \"INT\" \"INT\" \"INT\" \"INT\" \"INT\" \"INT\" \"INT\" \"INT\" \"INT\" \"INT\" \"INT\" \"INT\" \"INT\" \"INT\" \"INT\" \"INT\" \"INT\" \"INT\" \"INT\" \"INT\" \"INT\" \"INT\"",
+    " \"INT\" \"INT\" \"INT\" \"INT\" \"INT\" \"INT\" \"INT\" \"INT\" \"INT\" \"INT\" \"INT\" \"INT\" \"INT\" \"INT\" \"INT\" \"INT\" \"INT\" \"INT\" \"INT\" \"INT\" \"INT\" \"INT\" \"INT\" \"INT\" \"INT\" \"INT\" \"INT\" \"INT\" \"INT\" \"INT\" \"INT\" \"INT\" \"INT\" \"INT\" \"INT\" \"INT\" \"INT\" \"INT\" \"INT\" \"INT\" \"INT\" \"INT\" \"INT\" \"INT\" \"INT\" \"INT\" \"INT\" \"INT\" \"INT\" \"INT\"",
+    " \"INT\" \"INT\" \"INT\" \"INT\" \"INT\" \"INT\" \"INT\" \"INT\" \"INT\" \"INT\" \"INT\" \"INT\" \"INT\" \"INT\" \"INT\" \"INT\" \"INT\" \"INT\" \"INT\" \"INT\" \"INT\" \"INT\" \"INT\" \"INT\" \"INT\" \"INT\" \"INT\" \"INT\" \"INT\" \"INT\" \"INT\" \"INT\" \"INT\" \"INT\" \"INT\" \"INT\" \"INT\" \"INT\" \"INT\" \"INT\" \"INT\" \"INT\" \"INT\" \"INT\" \"INT\" \"INT\" \"INT\" \"INT\" \"INT\" \"INT\"",
+    " \")\" { 1 } ;\n"
+);
 pub const GRAMMARS: &[(&str, &str)] = &[
     ("g0-calc", "%start Expr\n%%\nExpr -> u64: Expr \"+\" Term { $1 + $3 } | Term { $1 } ;\nTerm -> u64: Term \"*\" Factor { $1 * $3 } | Factor { $1 } ;\nFactor -> u64: \"(\" Expr \")\" { $2 } | \"INT\" { 0 } ;\n"),
     ("g1-minus", "%start Expr\n%%\nExpr -> u64: Expr \"+\" Term { $1 + $3 } | Expr \"-\" Term { $1 - $3 } | Term { $1 } ;\nTerm -> u64: Term \"*\" Factor { $1 * $3 } | Factor { $1 } ;\nFactor -> u64: \"(\" Expr \")\" { $2 } | \"INT\" { 0 } ;\n"),
@@ -46,6 +61,7 @@ pub const GRAMMARS: &[(&str, &str)] = &[
     // one production with 300 symbols: more than 255 LR states, which a `u8` storage type
     // cannot number (the table builder panics) - a *valid* grammar whose build fails by panic
     ("g9-long-production", G9),
+    ("g10-many-states", G10),
     // Original-Yacc syntax (no action types): builds under Original(NoAction) and
     // Original(GenericParseTree), which must not be confused with each other
     ("go0-orig", "%start Expr\n%%\nExpr: Expr \"+\" Term | Term ;\nTerm: Term \"*\" Factor | Factor ;\nFactor: \"(\" Expr \")\" | \"INT\" ;\n"),
@@ -864,7 +880,7 @@ pub fn check_main(tier: &str) -> i32 {
         seed,
         evaluations: count,
         distinct_nontrivial: t.digests.len() as u64,
-        rule: format!("history i of stream VERIF_SEED: <= {max_ops} operations from {{edit grammar (9 valid, 4 invalid variants, with/without %grmtools header), edit lexer (5 valid, 3 invalid), set a parser option ({} keys), set a lexer option ({} keys: every CTLexerBuilder setter except lexerkind), switch flow, tick 0/1ns/1us/1s/1h, touch, delete an output, build with no fault / short-write error / crash at byte n}}; after every build a clean build of the same sources and settings into an empty directory. Non-trivial = the history contains a successful build after a change to the parser's inputs; distinct = distinct operation sequence.", POPT_POOL.len(), LOPT_POOL.len()),
+        rule: format!("history i of stream VERIF_SEED: <= {max_ops} operations from {{edit grammar ({} valid, 4 invalid variants, with/without %grmtools header), edit lexer (5 valid, 3 invalid), set a parser option ({} keys), set a lexer option ({} keys: every CTLexerBuilder setter except lexerkind), switch flow, tick 0/1ns/1us/1s/1h, touch, delete an output, build with no fault / short-write error / crash at byte n}}; after every build a clean build of the same sources and settings into an empty directory. Non-trivial = the history contains a successful build after a change to the parser's inputs; distinct = distinct operation sequence.", GRAMMARS.len(), POPT_POOL.len(), LOPT_POOL.len()),
         samples: t.samples.clone(),
         extra,
         assumptions: vec!["mtimes are the simulator's clock; backward or coarse file-system clocks are not modelled".into(), "one build per child process (the builders refuse a second build to the same path in one process)".into(), "byte equality is unmasked: all children share one lrpar/lrlex build and hence one embedded build timestamp".into()],
